@@ -16,6 +16,10 @@ global size_of usize == 8;
 
 pub uninterp spec fn enc_u16(x: u16) -> Seq<u8>;
 pub uninterp spec fn dec_u16(s: Seq<u8>) -> Option<(u16, Seq<u8>)>;
+pub uninterp spec fn enc_u8(x: u8) -> Seq<u8>;
+pub uninterp spec fn dec_u8(s: Seq<u8>) -> Option<(u8, Seq<u8>)>;
+pub uninterp spec fn enc_u64(x: u64) -> Seq<u8>;
+pub uninterp spec fn dec_u64(s: Seq<u8>) -> Option<(u64, Seq<u8>)>;
 pub uninterp spec fn enc_u32(x: u32) -> Seq<u8>;
 pub uninterp spec fn dec_u32(s: Seq<u8>) -> Option<(u32, Seq<u8>)>;
 #[verifier::opaque]
@@ -35,6 +39,11 @@ impl Writer {
     pub fn write_u16(&mut self, x: u16) ensures final(self).out@ == old(self).out@ + enc_u16(x) { unimplemented!() }
     #[verifier::external_body]
     pub fn write_u32(&mut self, x: u32) ensures final(self).out@ == old(self).out@ + enc_u32(x) { unimplemented!() }
+    // (the other fixed-width writers / readers, so that a changed prefix width is decided rather than a compile error)
+    #[verifier::external_body]
+    pub fn write_u8(&mut self, x: u8) ensures final(self).out@ == old(self).out@ + enc_u8(x) { unimplemented!() }
+    #[verifier::external_body]
+    pub fn write_u64(&mut self, x: u64) ensures final(self).out@ == old(self).out@ + enc_u64(x) { unimplemented!() }
     #[verifier::external_body]
     pub fn write_bytes(&mut self, b: &Vec<u8>) ensures final(self).out@ == old(self).out@ + b@ { unimplemented!() }
 }
@@ -48,6 +57,16 @@ impl Reader {
     pub fn read_u32(&mut self) -> (r: Result<u32, DeserializationError>)
         ensures r is Ok <==> dec_u32(old(self).rem@) is Some,
                 r is Ok ==> r->Ok_0 == dec_u32(old(self).rem@)->Some_0.0 && final(self).rem@ == dec_u32(old(self).rem@)->Some_0.1,
+    { unimplemented!() }
+    #[verifier::external_body]
+    pub fn read_u8(&mut self) -> (r: Result<u8, DeserializationError>)
+        ensures r is Ok <==> dec_u8(old(self).rem@) is Some,
+                r is Ok ==> r->Ok_0 == dec_u8(old(self).rem@)->Some_0.0 && final(self).rem@ == dec_u8(old(self).rem@)->Some_0.1,
+    { unimplemented!() }
+    #[verifier::external_body]
+    pub fn read_u64(&mut self) -> (r: Result<u64, DeserializationError>)
+        ensures r is Ok <==> dec_u64(old(self).rem@) is Some,
+                r is Ok ==> r->Ok_0 == dec_u64(old(self).rem@)->Some_0.0 && final(self).rem@ == dec_u64(old(self).rem@)->Some_0.1,
     { unimplemented!() }
     // contract of ByteReader::read_vec (read_slice + to_vec; Kani for SliceReader): the next `len` bytes, Err when fewer remain
     #[verifier::external_body]
